@@ -16,3 +16,14 @@ package plugin
 //@   at-call Write as rawBody: assert [raw-rest-from-1.8] called(g18) && res(g18) && ref(arg1) == ref(p.Data) && len(arg1) == len(p.Data)
 //@   at-call WriteBytes17 as framed: assert [1.7-framing-with-forge-extension] called(g18) && !res(g18) && ref(arg1) == ref(p.Data) && len(arg1) == len(p.Data) && arg2
 //@   ensures [channel-then-body] err == nil ==> (called(chModern) || called(chLegacy)) && (called(rawBody) || called(framed))
+
+// Legacy channel names on a 1.13+ wire: a name with ':' goes out unchanged; the four historical names map to their modern
+// identifiers; every other name is lower-cased FIRST and only then stripped of characters outside the identifier
+// alphabet, behind the "legacy:" prefix (so "FML|HS" becomes "legacy:fmlhs", as BungeeCord and Velocity do).
+//@ func TransformLegacyToModernChannel
+//@   props C07
+//@   at-call Contains as colon: assert streq(arg0, name) && streq(arg1, ":")
+//@   at-call ToLower as low: assert [lower-case-first] called(colon) && !res(colon) && streq(arg0, name)
+//@   at-call ReplaceAllString as strip: assert [then-strip-invalid-characters] called(low) && arg0 == InvalidIdentifierRegex && streq(arg1, res(low)) && streq(arg2, "")
+//@   ensures [a-namespaced-name-is-kept] called(colon) && (res(colon) ==> streq(result, name))
+//@   ensures [legacy-prefix-on-the-stripped-lower-case-name] called(strip) ==> streq(result, "legacy:" + res(strip))
